@@ -1404,7 +1404,7 @@ class AnsiString:
             inplace - when True, do the conversion in-place and return self;
                       when False, do the conversion on a copy and return the copy
         '''
-        if not self._s.endswith(suffix):
+        if not suffix or not self._s.endswith(suffix):
             if inplace:
                 return self
             else:
